@@ -1211,7 +1211,7 @@ def run(ctx):
         "zChaff binary replaced by a stub reporting UNSAT; traces in zChaff's format generated by the harness from solve_cnf's own traces",
         "debug messages of solve_cnf ('Analyze conflict ...') as the observation of learning for the noLearnRun stream"]
     ctx.assumptions += ["the model takes Python's set iteration orders as oracle inputs; theorems hold for every order",
-                        "termination of solve_cnf is not proved (fuel); non-termination is searched for with time limits"]
+                        "termination is proved for the model (solve_terminates); on the implementation non-termination is searched for with time limits"]
     # 2+3. correspondence and oracle
     from prover import sat
     rng = ctx.rng("cnf")
@@ -1284,15 +1284,17 @@ MANIFEST = {
             "tseitin_names_fresh, encode_statement_eq_model (the stated CNF is exactly the rules' clauses plus the top variable), "
             "encode_sequent_valid (hypotheses entail the CNF), tseitin_name_clash_counterexample for the naming before the fix; clause groups "
             "are the encode_* rules regenerated from library/sat.json on each run. Replay of resolution traces by logic.resolution as "
-            "zChaff.solve and proofrec.solve_cnf run it: macro_resolve_sound, replay_sound, replay_empty_unsat. Termination: "
-            "solve_terminates_partial only (runs that learn no non-empty clause end within #variables+1 rounds). Every model is tied to the "
+            "zChaff.solve and proofrec.solve_cnf run it: macro_resolve_sound, replay_sound, replay_empty_unsat, solver_trace_replays (the proofs solve_cnf returns replay with the macro "
+            "to the empty clause). Termination: "
+            "solve_terminates (termFuel n = n(n+1)^n + 2^n + 1 rounds suffice for n variables, for every CNF and set order), "
+            "analyze_terminates (the loop of analyze_conflict), total_correctness (with that fuel: 'satisfiable' with a solution, or "
+            "'unsatisfiable' with proofs passing the verified checker and no model), solve_terminates_no_learning (#variables+1 rounds "
+            "on runs that learn nothing). Every model is tied to the "
             "real code by differential streams: solve_cnf runs, tseitin.encode's CNF and hypotheses, single logic.resolution steps, traces of "
             "solve_cnf replayed with the real macro, proofrec.solve_cnf end to end, the real zChaff.solve on generated traces (binary stubbed), "
             "noLearnRun against the solver's debug output.",
-    "note": "NOT proved: termination of solve_cnf on runs with backjumps and of analyze_conflict's loop (fuel in the model; the measures and "
-            "invariants needed are written at solve_terminates_partial; non-termination is searched for with time limits); that the traces of "
-            "solve_cnf replay with logic.resolution to the empty clause (checked on every generated trace with the real macro, not a theorem); "
-            "that tseitin.encode's proof term is accepted by the checker (judged by the real checker on generated formulas; the construction "
+    "note": "Termination is a theorem about the model (fuel stands in for `while True`); the tie of the model to prover/sat.py is the "
+            "differential streams, and non-termination of the real code is still also searched for with time limits. NOT proved: that tseitin.encode's proof term is accepted by the checker (judged by the real checker on generated formulas; the construction "
             "from kernel rules is not modelled: only its statement is); that the model's own default subterm order passes orderOK (evaluated; "
             "the real order always did). The VAR/CONF sections of zChaff traces and the discharge steps of zChaff.solve / proofrec.solve_cnf "
             "are exercised on the real code only (theorem returned must be |- F and check), not modelled. Trusted: Lean kernel, "
